@@ -493,7 +493,7 @@ func genHistory(ch *vs.Choices, p *hProj, prop, tier string) []hStep {
 	var out []hStep
 	weights := map[string][]string{
 		"C04": {"run", "run", "run", "run-yes", "op:fail", "op:failcall", "op:clearfail", "both", "crash-cmd", "crash-cmd", "crash-fp", "dry", "status", "list-json", "op:edit", "op:touch", "run-force", "op:delgen", "op:prefail"},
-		"C05": {"run", "run", "run", "run-yes", "op:edit", "op:append", "op:touch", "op:add", "op:remove", "op:rename", "op:delgen", "op:status", "run-force", "op:edit-unmatched", "op:fail", "op:clearfail", "op:delgen"},
+		"C05": {"run", "run", "run", "run-yes", "op:edit", "op:append", "op:touch", "op:add", "op:remove", "op:rename", "op:delgen", "op:status", "run-force", "op:edit-unmatched", "op:fail", "op:clearfail", "op:delgen", "op:delgen", "op:prefail"},
 		"C13": {"run", "run", "run", "run-yes", "both", "dry", "op:prefail", "op:prefail", "op:clearfail", "op:edit", "op:touch", "op:delgen", "op:fail"},
 		"C12": {"run", "run-yes", "dry", "status", "list", "list-all", "list-json", "list-all-json", "list-json-nostatus", "summary", "op:edit", "op:edit", "op:fail", "op:failcall", "op:failcall", "op:clearfail", "op:delgen", "dry", "dry", "status"},
 	}[prop]
